@@ -130,6 +130,10 @@ func findSniExtension(search quicutils.Locator) (d string, err error) {
 			return "", ErrNotApplicable
 		}
 		if typ == TlsExtension_ServerName {
+			if extLength < 2 {
+				// No room for the server_name_list length: do not read past the extension.
+				return "", ErrNotApplicable
+			}
 			b, err = search.Range(i+4, i+6)
 			if err != nil {
 				return "", err
